@@ -21,6 +21,8 @@ func (r *rwRT) ruleFilePasses() {
 	pos := r.w.FnPos(fn)
 	in := r.interp(rwConfig{root: fn, boundaries: map[string]bool{"rewriteFile": false, "attachComment": true, "rewriteForRanges": true, "rewriteIter": true, "mkYieldFromRewriter": true, "mkYieldRewriter": true, "collectYieldFunc": true}})
 	in.MaxDepth = 10
+	// only the closures of rewriteFile itself are followed; every named function it calls is a step
+	in.Inline = func(f *ssa.Function) bool { return inRw(f) && f.Parent() != nil && outermost(f) == fn }
 	outs := in.Run(nil, fn, []AV{Sym{Name: "r", NN: true}, Sym{Name: "f", NN: true}, Sym{Name: "printer", NN: true}}, nil)
 	r.account(in)
 	// every path: sequence of astutil.Apply calls identified by the callback wrapped
@@ -79,9 +81,11 @@ func (r *rwRT) ruleFilePasses() {
 				default:
 					seq = append(seq, "pass:"+name)
 				}
-			case e.Kind == "call" && e.Fn != nil && inRw(e.Fn) && reachesFn(e.Fn, "rewriteYieldFunc", 4):
+			case e.Kind == "call" && e.Fn != nil && inRw(e.Fn) && (e.Fn.Name() == "rewriteYieldFunc" || reachesFn(e.Fn, "rewriteYieldFunc", 4)):
 				// the generator pass performed by a direct call instead of a traversal
-				seq = append(seq, "pass:yield")
+				if len(seq) == 0 || seq[len(seq)-1] != "pass:yield" {
+					seq = append(seq, "pass:yield")
+				}
 			case e.Kind == "call" && isSymNamed(e.Callee, "printer"):
 				seq = append(seq, "print")
 			}
